@@ -45,6 +45,16 @@ def gen(ctx, n, progs):
         out.append((prog, bursty(ctx.rng, th, lo=40, hi=400, flush=ctx.rng.choice([0.0, 0.02, 0.1, 0.3]), means=(1, 3, 10, 30, 60))))
     return out
 
+def qsbr_cases(ctx):
+    """qsbr: a thread comes back online (also through the tail of its own synchronize_rcu) with its reader-word store still in its store buffer, runs on into its
+    implicit section for k steps without any flush, and a grace period of another thread runs to completion in between: it must not"""
+    out = []
+    for prog, pre in (('FNr/S', 1), ('rFNrQ/S', 2), ('FNqQ/S/S', 1), ('Sr/S', 0), ('FNFNr/SS', 3)):
+        for k in range(1, 26 if ctx.quick() else 60):
+            out.append((prog, '>0' * pre + 'a' * 4 + '0' * k + '>1' + '0a' * 80 + '>1'))
+            out.append((prog, '>0' * pre + 'a' * 4 + '1b' * 30 + '0' * k + '>1' + '0a' * 80 + '>1'))      # the grace period already under way
+    return out
+
 def bp_cases(ctx):
     """bp: a thread makes its first read-side call (= registers) while a grace period is waiting for another reader, and keeps its section open across the next grace period"""
     out = []
@@ -103,7 +113,7 @@ def run(ctx):
     run_flavor(ctx, 'scen_gp_memb_nomembarrier', ['-DNO_MEMBARRIER'], PROGS, n // 2)
     mbdriver = build_model_driver(ctx, 'gpmb', 'ExtractGpMb.v', 'gpmb_driver.ml')
     run_flavor(ctx, 'scen_gp_mb', ['-DFLAVOR_MB'], PROGS, n // 2, mbdriver, project=G.project_mb, model='GpMbExec (mb model)')
-    run_flavor(ctx, 'scen_qsbr', [], QPROGS, n, src='scen_qsbr.c', orc=G.qsbr_oracle)
+    run_flavor(ctx, 'scen_qsbr', [], QPROGS, n, src='scen_qsbr.c', orc=G.qsbr_oracle, extra_cases=qsbr_cases(ctx))
     run_flavor(ctx, 'scen_sig_bp_c01', ['-DFLAVOR_BP'], BPPROGS, n // 2, src='scen_sig.c', extra_cases=bp_cases(ctx))
     return finish(ctx, trusted=TRUSTED, rule='Step/Flush schedules = corpus + parking sweeps (each thread frozen after k steps while the others complete 1 or 2 whole operations, '
                   'store buffers flushed eagerly or not) + bursty random (flush probability 0-0.3); every scenario has >= 2 consecutive grace periods and both litmus load orders; '
